@@ -1,7 +1,8 @@
 #!/usr/bin/env python3
 """Self-test of the machinery: apply each mutant of selftest/mutants.json to a scratch copy of /repo and
 run the property's check against it (VERIF_REPO).  breaking mutants must give exit 1 (and, when given, a failed
-obligation containing `expect`); benign mutants must give exit 0.  Nothing is written to /repo or to evidence/."""
+obligation containing `expect`); benign mutants must give exit 0.  Nothing is written to /repo or to evidence/.
+`--seeded` runs the stored seeded changes (seeded/<dir>/patch.diff, applied with patch -p1) instead: each must give exit 1."""
 import json
 import os
 import shutil
@@ -14,7 +15,15 @@ VERIF = os.path.dirname(HERE)
 
 def main():
     only = sys.argv[1:]
-    muts = json.load(open(os.path.join(VERIF, "selftest", "mutants.json")))
+    if "--seeded" in only:
+        only.remove("--seeded")
+        muts = []
+        for dn in sorted(os.listdir(os.path.join(VERIF, "seeded"))):
+            pf = os.path.join(VERIF, "seeded", dn, "patch.diff")
+            if os.path.exists(pf):
+                muts.append(dict(id="seeded-" + dn, property=dn.split("-")[0], kind="breaking", edits=[], patch=pf))
+    else:
+        muts = json.load(open(os.path.join(VERIF, "selftest", "mutants.json")))
     bad = 0
     for m in muts:
         if only and m["property"] not in only and m["id"] not in only:
@@ -33,6 +42,11 @@ def main():
                     break
                 s = s.replace(e["old"], e["new"], 1 if not e.get("all") else -1)
                 open(p, "w").write(s)
+            if ok_apply and m.get("patch"):
+                pr = subprocess.run(["patch", "-p1", "-s", "-i", m["patch"]], cwd=d, capture_output=True, text=True)
+                if pr.returncode != 0:
+                    print("MUTANT %s: patch does not apply: %s" % (m["id"], (pr.stdout + pr.stderr)[-300:]))
+                    ok_apply = False
             if not ok_apply:
                 bad += 1
                 continue
